@@ -243,3 +243,91 @@ func parallel(n int, fn func(i int)) {
 	close(next)
 	wg.Wait()
 }
+
+// AnalyseAll loads one tree once and runs every registered property on it
+// (development aid: used to run many variants quickly).
+func AnalyseAll(cfg load.Config) map[string][]chk.Obligation {
+	out := map[string][]chk.Obligation{}
+	lp, err := load.Load(cfg)
+	if err != nil {
+		out["LOAD"] = []chk.Obligation{{Rule: "LOAD", Func: "-", Construct: cfg.Name(), Site: "-", Status: chk.Undecided, Detail: err.Error()}}
+		return out
+	}
+	p := ir.New(lp)
+	fa := facts.Analyze(p)
+	m := chk.Resolve(p)
+	for _, id := range IDs() {
+		func() {
+			c := &chk.Ctx{P: p, F: fa, M: m}
+			defer func() {
+				if r := recover(); r != nil {
+					out[id] = append(c.Obs, chk.Obligation{Rule: "ENGINE", Func: "-", Construct: "panic", Site: "-", Status: chk.Undecided, Detail: fmt.Sprint(r)})
+				}
+			}()
+			for _, pr := range c.M.Problems {
+				c.Undecided("ANCHOR", nil, pr, 0, "anchor resolution failed: %s", pr)
+			}
+			if !fa.Fixed {
+				c.Undecided("ENGINE", nil, "facts fixpoint", 0, "lockset analysis did not reach a fixpoint")
+			}
+			for _, b := range fa.CheckSingleRoot() {
+				c.Undecided("ENGINE", nil, b, 0, "path-keyed facts are ambiguous: %s", b)
+			}
+			registry[id].Run(c, "quick")
+			c.Finish()
+			out[id] = c.Obs
+		}()
+	}
+	return out
+}
+
+// Variants applies each patch to a copy of repo and prints, per patch, the
+// properties that report something and the first few reports.
+func Variants(repo string, patches []string, verbose bool) {
+	lines := make([]string, len(patches))
+	parallel(len(patches), func(i int) {
+		dir, err := copyTree(repo)
+		if err != nil {
+			lines[i] = patches[i] + ": COPY FAILED"
+			return
+		}
+		defer os.RemoveAll(dir)
+		abs, _ := filepath.Abs(patches[i])
+		if !applyPatch(dir, abs) {
+			lines[i] = patches[i] + ": STALE (patch does not apply)"
+			return
+		}
+		res := AnalyseAll(load.Config{Dir: dir})
+		var ids []string
+		for id := range res {
+			ids = append(ids, id)
+		}
+		sort.Strings(ids)
+		var hit []string
+		var detail []string
+		seen := map[string]bool{}
+		for _, id := range ids {
+			n := 0
+			for _, o := range res[id] {
+				if o.Status != chk.OK {
+					n++
+					k := o.Key()
+					if !seen[k] {
+						seen[k] = true
+						detail = append(detail, fmt.Sprintf("    %s %s %s — %s", id, o.Site, k, o.Detail))
+					}
+				}
+			}
+			if n > 0 {
+				hit = append(hit, id)
+			}
+		}
+		lines[i] = fmt.Sprintf("%s: %v", patches[i], hit)
+		if verbose {
+			lines[i] += "\n" + strings.Join(detail, "\n")
+		}
+	})
+	for _, l := range lines {
+		fmt.Println(l)
+	}
+}
